@@ -206,15 +206,18 @@ def _scaled(paths, queries, scale):
     length compared with a squared length, or an absolute threshold, shows at some scales only."""
     if scale == 1:
         return paths, queries
-    return (tuple(((a[0] * scale, a[1] * scale), (b[0] * scale, b[1] * scale)) for a, b in paths),
-            [(q[0] * scale, q[1] * scale) for q in queries])
+    d_x, d_y = 0, 0
+    if isinstance(scale, tuple):            # (factor, shift in x, shift in y)
+        scale, d_x, d_y = scale
+    move = lambda pt: (pt[0] * scale + d_x, pt[1] * scale + d_y)     # noqa: E731
+    return (tuple((move(a), move(b)) for a, b in paths), [move(q) for q in queries])
 
 
 def _chunk(args):
     items, bins_list, queries, with_borders = args[:4]
     scale = args[4] if len(args) > 4 else 1
     part = core.Part()
-    if scale != 1:
+    if scale != 1 and not isinstance(scale, tuple):
         # extra query points at sub-cell offsets (clearances well below one unit)
         queries = queries + [(x + 0.3, y + 0.45) for x in (0, 1) for y in (0, 1)]
     for paths in items:
@@ -316,6 +319,10 @@ def run(ctx):
     jobs += [(chunk, [1, 2, 3, 4, 5], queries, True) for chunk in core.split(ones, 8)]
     for scale in (0.125, 16):
         jobs += [(chunk, [1, 2, 3, 4], queries, False, scale) for chunk in core.split(ones, 8)]
+    # the same drawings 2^50 units from the origin along one axis (coordinates stay exact; the
+    # margin an index adds around its extent is far below one unit in the last place there)
+    for shift in ((1, float(1 << 50), 0.0), (1, 0.0, -float(1 << 50))):
+        jobs += [(chunk, [1, 2, 3, 4], queries, False, shift) for chunk in core.split(ones, 8)]
     jobs += [(chunk, [2, 4], FINE_QUERIES, False) for chunk in core.split(fine_sets(), 48)]
     twos = [(p, q) for p in all_paths for q in all_paths]
     few_q = [(x, y) for x in (-1, 0, 0.5, 1, 1.5, 2, 3) for y in (-1, 0, 0.5, 1, 1.5, 2, 3)]
@@ -354,7 +361,7 @@ def run(ctx):
                 "side x reverse in {False, True}; per index every removal order; in every "
                 "distinct removed-set state nearest() for the query lattice (inside, on and "
                 "outside the grid, cell borders); states reached by different orders compared "
-                "field by field; the one-path sets again scaled by 1/8 and by 16; 625 two-path sets "
+                "field by field; the one-path sets again scaled by 1/8 and by 16 and shifted by 2^50 along either axis; 625 two-path sets "
                 "with ends on a 3/64 lattice straddling a cell wall queried on a 1/64 lattice; "
                 "3 (4) layouts of 41..150 (400) paths x bins {3,6,10,13} x reverse x "
                 "three removal orders queried after every removal; non-trivial = indexes with "
